@@ -110,6 +110,14 @@ def obligations(ctx):
        replace=["ring_write_size", "ring_write", "rtosc_amessage"], defs=tl)
     ob("ThreadLink_read.contract", "h_tl_read", "ThreadLink_read",
        replace=["ring_read_vector", "ring_read", "rtosc_message_ring_length"], defs=tl)
+    # bounded, replayable: all short sequential histories on small rings against a reference FIFO
+    hk, hs = ("4", "8") if ctx.tier == "quick" else ("6", "8")
+    obls.append(Obl("C06.history.sequential", "C06", "harness/C06/history.c", entry="h_history", defines={"HK": hk, "HS": hs},
+                    mode="bounded", bound="all histories of %s ring operations (write/read/lookahead read, 0..8 bytes each) on ring sizes 2..%s from every start index" % (hk, hs),
+                    cbmc=["--unwind", "10", "--unwinding-assertions"], timeout=2400, mem_gb=12,
+                    functions=["ring_write", "ring_read", "ring_read_size", "ring_write_size"]))
+    obls.append(Obl("C06.canary.history", "C06", "harness/C06/history.c", entry="h_history", defines={"HK": "3", "HS": "4"},
+                    mode="bounded", bound="canary", cbmc=["--unwind", "10"], timeout=900, canary=True))
     # vacuity guards: the preconditions are satisfiable and the interesting regions are reachable
     cs = {"RING_SMAX": "8", "ORDER_GHOSTS": None}
     ob("canary.ring_write", "h_ring_write", "ring_write", defs=cs, canary=True)
